@@ -11,6 +11,7 @@ Unit syntax: ordinary Verus text, copied verbatim, interleaved with directives:
      //@attrs                     keep the item's attributes/doc comments (default: dropped)
      //@sub <Rk> <count> "<from>" => "<to>"      literal rewrite, must match exactly <count> times
      //@resub <Rk> <count> /<regex>/ => "<to>"   regex rewrite, same
+     //@assert_exec               R3 variant: `assert!(c)` => `{ let __cond = c; assert(__cond) }` (c evaluated in exec mode)
      //@noauto                    do not apply the automatic rules (R2, R3)
      //@sigonly                   emit only the signature + spec, terminated by ';' (trait methods)
      //@attrs derive              keep only the item's #[derive(..)] attributes
@@ -60,7 +61,7 @@ def _split_args(m, text, lo, hi):
 AUTO_MACROS = ["debug_assert_eq", "debug_assert_ne", "debug_assert", "assert_eq", "assert_ne", "assert", "unreachable"]
 
 
-def auto_rules(text, log, where):
+def auto_rules(text, log, where, exec_eval=False):
     """R3: run-time assertion macros become proof obligations; R2: `_` closure params
     and `for _ in` get fresh names."""
     # R3
@@ -77,8 +78,14 @@ def auto_rules(text, log, where):
         op = mt.end() - 1
         cl = match_close(m, op)
         args = _split_args(m, text, op + 1, cl)
-        if name in ("assert", "debug_assert"):
+        if name in ("assert", "debug_assert") and exec_eval:
+            # the condition is evaluated as executable code (so calls to exec-only std functions are
+            # allowed and its own arithmetic is overflow-checked), then asserted
+            new = "{ let __cond = %s; assert(__cond) }" % args[0]
+        elif name in ("assert", "debug_assert"):
             new = "assert(%s)" % args[0]
+        elif name in ("assert_eq", "debug_assert_eq") and exec_eval:
+            new = "{ let __l = %s; let __r = %s; assert(__l == __r) }" % (args[0], args[1])
         elif name in ("assert_eq", "debug_assert_eq"):
             new = "assert(%s == %s)" % (args[0], args[1])
         elif name in ("assert_ne", "debug_assert_ne"):
@@ -237,6 +244,8 @@ def weave(unit_path, repo, verif_root, vacuity=False):
                     opts["replace_body"] = True
                 elif d == "noauto":
                     opts["noauto"] = True
+                elif d == "assert_exec":
+                    opts["assert_exec"] = True
                 elif d == "sigonly":
                     opts["sigonly"] = True
                 elif d == "external_body":
@@ -346,7 +355,7 @@ def _do_extract(repo, relfile, selector, opts, sources, log, extracted):
             text = text.replace(frm, to)
     if not opts["noauto"]:
         n0 = len(log)
-        text = auto_rules(text, log, where)
+        text = auto_rules(text, log, where, exec_eval=opts.get("assert_exec", False))
         for l in log[n0:]:
             l["fn"] = name
     if opts["pub"]:
